@@ -10,7 +10,7 @@ Import ListNotations.
 Lemma exec_base_pnft_frame e c m c' a :
   exec_base e c m = Ok (c', a) -> (forall pm, m <> BPnft pm) -> c_pnft c' = c_pnft c.
 Proof.
-  intros H Hn. destruct m as [am|dm|pm|f t amt|f t amt et|g r u ex|g r u]; simpl in H.
+  intros H Hn. destruct m as [am|dm|pm|f t amt|f t amt et|g r u ex|g r u|f amt outs]; simpl in H.
   - destruct am as [t d o|t mo d w o|t w o|t k v w o f]; simpl in H;
       match type of H with bind ?x _ = _ => destruct x; simpl in H; try discriminate end;
       inversion H; reflexivity.
@@ -29,6 +29,9 @@ Proof.
     destruct (match ex with Some t => _ | None => false end); try discriminate. inversion H; reflexivity.
   - destruct (e_unbech e g), (e_unbech e r); try discriminate.
     destruct (find_grant _ _ _ _); try discriminate. inversion H; reflexivity.
+  - destruct (e_unbech e f); try discriminate. destruct (unbech_outs _ _); try discriminate.
+    destruct (existsb _ _); try discriminate.
+    destruct (multi_send _ _ _ _ _); try discriminate. inversion H; reflexivity.
 Qed.
 
 Lemma ante_pnft_frame e c t c' : ante e c t = Some c' -> c_pnft c' = c_pnft c.
@@ -80,7 +83,7 @@ Proof.
   - intros c0 H. exact H.
   - intros a b0 c0 H1 H2 Ha. apply H2. apply H1. exact Ha.
   - intros e c0 m c' acks He Hvb Hx Ha.
-    destruct m as [am|dm|pm|f t amt|f t amt et|g r u ex|g r u];
+    destruct m as [am|dm|pm|f t amt|f t amt et|g r u ex|g r u|f amt outs];
       try (rewrite (exec_base_pnft_frame e c0 _ c' acks Hx); [exact Ha | intros pm0; discriminate]).
     simpl in Hvb, Hx. eapply exec_pnft_inv; eauto.
   - intros e c0 t c' _ Hx Ha. rewrite (ante_pnft_frame e c0 t c' Hx). exact Ha.
